@@ -134,6 +134,9 @@ func init() {
 		m.yield(fr, "time.Sleep")
 		return nil
 	})
+	register("(time.Time).Sub", func(m *Machine, fr *frame, fn *ssa.Function, args []Value) Value {
+		return m.F.Const(64, 0) // contract: opaque instants, elapsed time is 0 (as time.Since)
+	})
 	register("time.Since", func(m *Machine, fr *frame, fn *ssa.Function, args []Value) Value {
 		return m.F.Const(64, 0)
 	})
